@@ -50,6 +50,44 @@ K_C02 = dict(yields=0.3, cbs=0.6, cb_max=3, conv=0.35, listeners=(0, 3), multi_p
              ops=(2, 10))
 
 
+def extra_C02(rng, tier):
+    """a transition reachable by two events fires once through one of them; then a listener with
+    event-named callbacks for both events is attached with add_listener; then the transition fires
+    through the other event, and through the first again (event-named callbacks run for their own
+    event only, whenever they were attached)"""
+    n = 160 if tier == "quick" else 2500
+    out = []
+    while len(out) < n:
+        sc = enggen.gen_scenario(rng, dict(K_C02, p_async=0.0, multi_event=0.3, styles=("str", "list"), evmax=4))
+        if sc["ne"] < 2:
+            continue
+        ea, eb = sorted(rng.sample(range(sc["ne"]), 2))
+        s0 = sc["initial"]
+        donor = rng.choice(sc["trans"])
+        first = {"s": s0, "t": s0, "ev": [ea, eb], "int": rng.random() < 0.4, "val": [], "cond": [],
+                 "before": list(donor["before"]) if rng.random() < 0.5 else [], "on": list(donor["on"]) if rng.random() < 0.5 else [],
+                 "after": list(donor["after"]) if rng.random() < 0.5 else []}
+        sc["trans"].insert(0, first)
+        if sc.get("mixed") is not None:
+            sc["mixed"].insert(0, 0)
+        p = len(sc["provs"])
+        names = [[kind, e] for e in (ea, eb) for kind in (4, 5, 6) if rng.random() < 0.8] or [[4, ea]]
+        sc["provs"].append(names)
+        for kind, e in names:
+            sc["tbl"].append([p, kind, e, [], {"a": [], "r": rng.choice([None, 1, {"s": 1}])}])
+        sc["late"] = [p]
+        sc["field0"], sc["start"] = None, None
+        tag = 40
+        ops = [["construct"], ["send", ea, tag], ["add", [p]], ["send", eb, tag + 1], ["send", ea, tag + 2]]
+        if rng.random() < 0.5:
+            ops[1], ops[3] = ["send", eb, tag], ["send", ea, tag + 1]
+        ops += [op for op in sc["ops"][1:] if op[0] == "send"][:3]
+        sc["ops"] = ops
+        out.append(sc)
+    return out, ("two-event transitions fired once, then a listener with event-named callbacks attached with "
+                 "add_listener, then fired through the other event and the first again")
+
+
 def nontrivial_C02(sc, obs):
     """Non-trivial: some operation ran >= 4 callbacks coming from >= 2 providers (machine / model /
     listeners) - i.e. several groups and providers are populated at once."""
@@ -178,7 +216,7 @@ def nontrivial_C14(sc, obs):
 
 SPECS = {
     "C01": dict(knobs=K_C01, nontrivial=nontrivial_C01, n=(2200, 40000)),
-    "C02": dict(knobs=K_C02, nontrivial=nontrivial_C02, n=(1800, 30000), late=0.3, overlap=True),
+    "C02": dict(knobs=K_C02, nontrivial=nontrivial_C02, n=(1800, 30000), late=0.3, overlap=True, extra=extra_C02),
     "C03": dict(knobs=K_C03, nontrivial=nontrivial_C03, n=(1800, 20000), extra=extra_C03),
     "C04": dict(knobs=K_C04, nontrivial=nontrivial_C04, n=(260, 5000), faults=True),
     "C11": dict(knobs=K_C11, nontrivial=nontrivial_C11, n=(2000, 30000)),
